@@ -975,8 +975,14 @@ def json_compat_obj_decode(data_type, obj, caller_permissions=None,
         return decoder.make_stone_friendly(
             data_type, obj, True)
     else:
-        return decoder.json_compat_obj_decode_helper(
+        ret = decoder.json_compat_obj_decode_helper(
             data_type, obj)
+        if isinstance(data_type, (bv.List, bv.Map, bv.Nullable)):
+            # Primitives inside these are normally validated when they are
+            # assigned to a struct field or union; at the top level there
+            # is no such assignment.
+            ret = data_type.validate(ret)
+        return ret
 
 def _strftime(dt, fmt):
     return dt.strftime(fmt)
